@@ -166,4 +166,14 @@ func init() {
 	add("c14-jqlit-negative", "C14.jqlit", jqJQ, "then -(.term.number | tonumber)", "then (.term.number | tonumber)", "from_jq|negative")
 	// C14.pair
 	add("c14-pair-default-order", "C14.pair", encJQ, "def to_base64($opts): _to_base64({encoding: \"std\"} + $opts);", "def to_base64($opts): _to_base64($opts + {encoding: \"std\"});", "overrides the caller")
+
+	// C14.xmlns
+	add("c14-xmlns-order", "C14.xmlns", xmlGo, "\tfor i := len(nss) - 1; i >= 0; i-- {\n\t\tns := nss[i]\n", "\tfor _, ns := range nss {\n", "xmlns|lookup-order")
+	add("c14-xmlns-push-front", "C14.xmlns", xmlGo, "n = append(n, xmlNS{name: name, url: url})", "n = append([]xmlNS{{name: name, url: url}}, n...)", "xmlns|lookup-order")
+	add("c14-xmlns-bounds", "C14.xmlns", xmlGo, "for i := len(nss) - 1; i >= 0; i-- {", "for i := len(nss) - 1; i > 0; i-- {", "xmlns|lookup-bounds")
+	add("c14-xmlns-start", "C14.xmlns", xmlGo, "for i := len(nss) - 1; i >= 0; i-- {", "for i := len(nss) - 2; i >= 0; i-- {", "xmlns|lookup-bounds")
+	add("c14-xmlns-fields", "C14.xmlns", xmlGo, "if name.Space == ns.url {", "if name.Space == ns.name {", "xmlns|lookup-fields")
+	add("c14-xmlns-args", "C14.xmlns", xmlGo,
+		"f = func(n xmlNode, seq int, nss xmlNNStack) (string, any) {\n\t\tattrs := map[string]any{}\n\n\t\tfor _, a := range n.Attrs {\n\t\t\tlocal, space := a.Name.Local, a.Name.Space\n\t\t\tif space == \"xmlns\" {\n\t\t\t\tnss = nss.push(local, a.Value)",
+		"f = func(n xmlNode, seq int, nss xmlNNStack) (string, any) {\n\t\tattrs := map[string]any{}\n\n\t\tfor _, a := range n.Attrs {\n\t\t\tlocal, space := a.Name.Local, a.Name.Space\n\t\t\tif space == \"xmlns\" {\n\t\t\t\tnss = nss.push(a.Value, local)", "xmlns|push-args#")
 }
